@@ -503,8 +503,9 @@ func runC07(c *Ctx) {
 	}
 	var ops []*c7op
 	type gnode struct {
-		owner int
-		slog  bool
+		owner   int
+		slog    bool
+		nameLen int // length of the dot-joined name of the node's path
 	}
 	gn := []gnode{{owner: -1}}
 	logN := 0
@@ -552,6 +553,17 @@ func runC07(c *Ctx) {
 			switch op.how {
 			case c7Named:
 				op.name = pick(g, "a", "svc", "", "x.y", "b")
+				if g.Chance(2) {
+					// aim at the sizes where fixed-size storage for "short" names
+					// would end: the segment is as long as it takes for the joined
+					// name, or the two parts without the dot, to reach 2^k-1, 2^k, 2^k+1
+					target := pick(g, 15, 16, 17, 31, 32, 33, 63, 64, 65, 127, 128, 129, 255, 256, 257)
+					l := target - gn[op.node].nameLen - g.Draw(2)
+					if l >= 1 {
+						op.name = strings.Repeat(string(rune('k'+len(gn)%8)), l)
+						c.R.Probe("logger name reaching a power-of-two length")
+					}
+				}
 			default:
 				op.fields = w.genFields(g, op.newID, mutation && op.how != c7Slog, op.how == c7Slog)
 			}
@@ -559,7 +571,14 @@ func runC07(c *Ctx) {
 			if shared || nTasks == 1 {
 				owner = -1
 			}
-			gn = append(gn, gnode{owner: owner, slog: op.how == c7Slog})
+			nl := gn[op.node].nameLen
+			if op.how == c7Named && op.name != "" {
+				if nl > 0 {
+					nl++
+				}
+				nl += len(op.name)
+			}
+			gn = append(gn, gnode{owner: owner, slog: op.how == c7Slog, nameLen: nl})
 		case 1:
 			op.node = usable[g.Draw(len(usable))]
 			logN++
